@@ -137,6 +137,92 @@ theorem C16_string (f : Field) (s : Bytes) (hlen : s.length ≤ f.size) (hok : S
       · exact absurd h hne
       · exact strOf_cellOf f.size s hne a b c d
 
+/-- **C16_string_converse**: the condition of `C16_string` is necessary for EVERY string — a string of at
+most `size` bytes that comes back equal satisfies `StrOK`. (A leading blank/NUL, a trailing NUL, or a
+trailing blank in a completely filled cell always changes the string.) -/
+theorem C16_string_converse (size : Nat) (s : Bytes) (hlen : s.length ≤ size)
+    (h : strOf (cellOf size s) = s) : StrOK size s := by
+  by_cases hne : s = []
+  · exact Or.inl hne
+  · right
+    have hzN : ∀ x ∈ List.replicate (size - s.length) (0 : UInt8), isNul x = true := by
+      intro x hx; simp [List.mem_replicate] at hx; simp [isNul, hx.2]
+    have hzhead : ∀ x, (List.replicate (size - s.length) (0 : UInt8)).head? = some x → isSp x = false := by
+      intro x hx
+      cases hn : size - s.length with
+      | zero => simp [hn] at hx
+      | succ n => simp [hn, List.replicate_succ] at hx; subst hx; rfl
+    refine ⟨?_, ?_, ?_, ?_⟩
+    · -- a leading blank is always lost: the result is no longer than the text after its leading blanks
+      intro hh
+      obtain ⟨a, t, rfl⟩ := List.exists_cons_of_ne_nil hne
+      have ha : a = 32 := by simpa using hh
+      subst ha
+      have hdrop : ((32 :: t) ++ List.replicate (size - (32 :: t).length) 0).dropWhile isSp
+          = t.dropWhile isSp ++ List.replicate (size - (32 :: t).length) 0 := by
+        rw [dropWhile_append_stop isSp _ hzhead]
+        rfl
+      have hu : (t.dropWhile isSp).length ≤ t.length := dropWhile_length_le isSp t
+      have hbound : (strOf (cellOf size (32 :: t))).length ≤ (t.dropWhile isSp).length := by
+        unfold strOf readAttribute cellOf
+        unfold trim at *
+        rw [hdrop]
+        cases hn : size - (32 :: t).length with
+        | zero =>
+          simp only [List.replicate_zero, List.append_nil]
+          exact Nat.le_trans (Nat.le_trans (rtrim_length_le _ _) (dropWhile_length_le _ _)) (rtrim_length_le _ _)
+        | succ n =>
+          have hid : rtrim isSp (t.dropWhile isSp ++ List.replicate (n + 1) 0) = t.dropWhile isSp ++ List.replicate (n + 1) 0 := by
+            apply rtrim_id
+            intro x hx
+            rcases getLast?_append_replicate _ _ _ _ hx with ⟨_, rfl⟩ | ⟨h0, _⟩
+            · rfl
+            · omega
+          rw [hid]
+          have := trim_append_cut_length isNul (List.replicate (n + 1) 0) (by
+            intro x hx; simp [List.mem_replicate] at hx; simp [isNul, hx]) (t.dropWhile isSp)
+          unfold trim at this
+          exact this
+      rw [h] at hbound
+      simp only [List.length_cons] at hbound
+      omega
+    · intro hh
+      have : (strOf (cellOf size s)).head? = some 0 := by rw [h]; exact hh
+      have := trim_head isNul _ 0 this
+      simp [isNul] at this
+    · intro hh
+      have : (strOf (cellOf size s)).getLast? = some 0 := by rw [h]; exact hh
+      have := trim_getLast isNul _ 0 this
+      simp [isNul] at this
+    · -- a blank at the very end of a full cell is always lost
+      intro hl
+      rcases Nat.lt_or_ge s.length size with hlt | hge
+      · exact hlt
+      · exfalso
+        have hfull : size - s.length = 0 := by omega
+        have hcell : cellOf size s = s := by simp [cellOf, hfull]
+        have h1 : (readAttribute s).length < s.length := by
+          unfold readAttribute trim
+          by_cases hd : s.dropWhile isSp = []
+          · rw [hd]
+            simp only [rtrim, List.length_nil]
+            exact List.length_pos_iff.mpr hne
+          · have hlast := dropWhile_getLast? isSp s hd
+            rw [hl] at hlast
+            have := rtrim_length_lt isSp _ 32 hlast rfl
+            exact Nat.lt_of_lt_of_le this (dropWhile_length_le isSp s)
+        have h2 : (strOf (cellOf size s)).length ≤ (readAttribute s).length := by
+          rw [hcell]; unfold strOf; exact trim_length_le isNul _
+        rw [h] at h2
+        omega
+
+/-- **C16_string_iff** (clause "NUL-free strings up to 50 bytes are equal", exact form): a string of at
+most `size` bytes is read back unchanged if and only if it is empty or (does not start with a blank or
+NUL, does not end with NUL, and does not end with a blank while filling the cell completely). -/
+theorem C16_string_iff (f : Field) (s : Bytes) (hlen : s.length ≤ f.size) :
+    strOf (cellOf f.size s) = s ↔ StrOK f.size s :=
+  ⟨C16_string_converse f.size s hlen, fun hok => (C16_string f s hlen hok).2⟩
+
 /-- the clauses of `StrOK` cannot be dropped (model-level negation of the statement as written, concrete
 witnesses in a 5-byte column): a leading blank is lost, a blank at the very end of a full cell is lost,
 leading/trailing NULs are lost; a trailing blank of a shorter string and interior NUL/blank survive. -/
@@ -563,6 +649,464 @@ example :
       = [[], [fmtInt 101]] := by
   decide +kernel
 
+/-! ### `DecodeRow`, and schedules mixing `DecodeRow` with `DecodeRowFields` -/
+
+/-- `row` is what call `c` returns for record `r` — ITS OWN shape and ITS OWN cells — for some content
+`var` of the caller's record variable (arbitrary: fresh, or left over from any earlier row) -/
+def RowOf (zero : α) (keys : List Bytes) (G : Shape α → Geom α) (c : Call) (r : Shape α × List Bytes)
+    (row : List (RVal α)) : Prop :=
+  match c with
+  | .f ns => ∃ vs, rowFields keys r.2 ns = .ok (vs, false) ∧ row = .geom (G r.1) :: vs
+  | .s sfs _ => ∃ var, decodeFields zero keys (G r.1) r.2 sfs var = (some row, false)
+
+/-- call `c` succeeds on record `r` whatever the record variable holds: no field panics, every matched
+numeric cell parses, every requested name is a column -/
+def CallOK (zero : α) (keys : List Bytes) (G : Shape α → Geom α) (c : Call) (r : Shape α × List Bytes) : Prop :=
+  match c with
+  | .f ns => ∃ vs : List (RVal α), rowFields keys r.2 ns = .ok (vs, false)
+  | .s sfs _ => ∀ var, ∃ vs, decodeFields zero keys (G r.1) r.2 sfs var = (some vs, false)
+
+/-- the `i`-th, `i+1`-th, … returned rows are the records of `rest`, in order, one each -/
+def RowsOf (zero : α) (keys : List Bytes) (G : Shape α → Geom α) (calls : List Call) :
+    List (Shape α × List Bytes) → Nat → List (List (RVal α)) → Prop
+  | [], _, [] => True
+  | r :: rest, i, row :: rows =>
+    (∃ c, calls[i % calls.length]? = some c ∧ RowOf zero keys G c r row) ∧ RowsOf zero keys G calls rest (i + 1) rows
+  | _, _, _ => False
+
+theorem RowsOf_length (zero : α) (keys : List Bytes) (G : Shape α → Geom α) (calls : List Call) :
+    ∀ (rest : List (Shape α × List Bytes)) (i : Nat) (rows : List (List (RVal α))),
+      RowsOf zero keys G calls rest i rows → rows.length = rest.length
+  | [], _, [], _ => rfl
+  | [], _, _ :: _, h => by simp [RowsOf] at h
+  | _ :: _, _, [], h => by simp [RowsOf] at h
+  | _ :: rest, i, _ :: rows, h => by
+    simp only [RowsOf] at h
+    simp [RowsOf_length zero keys G calls rest (i + 1) rows h.2]
+
+theorem readM_go_sched (zero : α) (f : FileM α) (calls : List Call) (G : Shape α → Geom α)
+    (hne : calls ≠ [])
+    (hcalls : ∀ c ∈ calls, ∀ r ∈ f.rows, CallOK zero (fileKeys f.fields) G c r)
+    (hg : ∀ r ∈ f.rows, shp2Geom r.1 = .ok (G r.1)) :
+    ∀ (rest : List (Shape α × List Bytes)) (k i : Nat) (vars : List (List (RVal α))), f.rows.drop k = rest →
+      ∃ rows, readM.go zero f calls (fileKeys f.fields) rest k i vars = ⟨rows, false, false⟩ ∧
+        RowsOf zero (fileKeys f.fields) G calls rest i rows := by
+  intro rest
+  induction rest with
+  | nil => intro k i vars _; exact ⟨[], by simp [readM.go], by simp [RowsOf]⟩
+  | cons r rest ih =>
+    intro k i vars hdrop
+    have hlen : 0 < calls.length := List.length_pos_iff.mpr hne
+    have hi : i % calls.length < calls.length := Nat.mod_lt _ hlen
+    have hk : k < f.rows.length := by
+      rcases Nat.lt_or_ge k f.rows.length with h | h
+      · exact h
+      · rw [List.drop_eq_nil_of_le h] at hdrop; cases hdrop
+    have hrk : f.rows[k] = r := by
+      have := List.getElem_cons_drop (h := hk)
+      rw [hdrop] at this
+      exact (List.cons.inj this).1
+    have hmem : r ∈ f.rows := hrk ▸ List.getElem_mem hk
+    have hrest : f.rows.drop (k + 1) = rest := by
+      have := List.getElem_cons_drop (h := hk)
+      rw [hdrop] at this
+      exact (List.cons.inj this).2
+    have hok := hcalls _ (List.getElem_mem hi) r hmem
+    have hgr := hg _ hmem
+    obtain ⟨sh, cells⟩ := r
+    simp only at hgr
+    cases hc : calls[i % calls.length] with
+    | f ns =>
+      rw [hc] at hok
+      obtain ⟨vs, hvs⟩ := hok
+      simp only at hvs
+      obtain ⟨rows, hrows, hof⟩ := ih (k + 1) (i + 1) vars hrest
+      refine ⟨(.geom (G sh) :: vs) :: rows, ?_, ?_⟩
+      · rw [readM.go]
+        simp only [List.getElem?_eq_getElem hi, hc, hgr, List.getElem?_eq_getElem hk, hrk, hvs, hrows]
+      · simp only [RowsOf]
+        exact ⟨⟨.f ns, by simp [List.getElem?_eq_getElem hi, hc], vs, hvs, rfl⟩, hof⟩
+    | s sfs reuse =>
+      rw [hc] at hok
+      obtain ⟨vs, hvs⟩ := hok (if reuse then (vars[i % calls.length]?).getD (zeroRow zero sfs) else zeroRow zero sfs)
+      simp only at hvs
+      obtain ⟨rows, hrows, hof⟩ := ih (k + 1) (i + 1) (setVar vars (i % calls.length) vs) hrest
+      refine ⟨vs :: rows, ?_, ?_⟩
+      · rw [readM.go]
+        simp only [List.getElem?_eq_getElem hi, hc, hgr, List.getElem?_eq_getElem hk, hrk, hvs, hrows]
+      · simp only [RowsOf]
+        exact ⟨⟨.s sfs reuse, by simp [List.getElem?_eq_getElem hi, hc], _, hvs⟩, hof⟩
+
+/-- **C16_order_schedule** (clause "come back in the same order and number"; generalises
+`C16_order_any_fields` to ANY schedule on one decoder mixing `DecodeRow` — into fresh or reused record
+variables — and `DecodeRowFields`): if every call of the schedule succeeds on every record (`CallOK`),
+the reads return exactly one row per record, in file order, without panic or error, and the `i`-th row is
+built from record `i`'s own shape and own cells (`RowOf`), whatever the record variables held. -/
+theorem C16_order_schedule (zero : α) (f : FileM α) (calls : List Call) (G : Shape α → Geom α)
+    (hne : calls ≠ [])
+    (hcalls : ∀ c ∈ calls, ∀ r ∈ f.rows, CallOK zero (fileKeys f.fields) G c r)
+    (hg : ∀ r ∈ f.rows, shp2Geom r.1 = .ok (G r.1)) :
+    ∃ rows, readM zero f calls = ⟨rows, false, false⟩ ∧ rows.length = f.rows.length ∧
+      RowsOf zero (fileKeys f.fields) G calls f.rows 0 rows := by
+  obtain ⟨rows, h1, h2⟩ := readM_go_sched zero f calls G hne hcalls hg f.rows 0 0 _ (by simp)
+  exact ⟨rows, by simpa [readM] using h1, RowsOf_length _ _ _ _ _ _ _ h2, h2⟩
+
+theorem readS_go_rows (zero : α) (sfs : List SField) (reuse : Bool) (keys : List Bytes) (G : Shape α → Geom α) :
+    ∀ (rest : List (Shape α × List Bytes)) (var : List (RVal α)),
+      (∀ r ∈ rest, shp2Geom r.1 = .ok (G r.1) ∧ CallOK zero keys G (.s sfs reuse) r) →
+      ∃ rows, readS.go zero sfs reuse keys rest var = ⟨rows, false, false⟩ ∧
+        RowsOf zero keys G [.s sfs reuse] rest 0 rows := by
+  intro rest
+  induction rest with
+  | nil => intro var _; exact ⟨[], by simp [readS.go], by simp [RowsOf]⟩
+  | cons r rest ih =>
+    intro var h
+    obtain ⟨hgr, hok⟩ := h r (by simp)
+    obtain ⟨vs, hvs⟩ := hok var
+    obtain ⟨rows, hrows, hof⟩ := ih (if reuse then vs else zeroRow zero sfs) (fun r' hr' => h r' (by simp [hr']))
+    obtain ⟨sh, cells⟩ := r
+    simp only at hgr hvs
+    refine ⟨vs :: rows, ?_, ?_⟩
+    · rw [readS.go]
+      simp only [hgr, hvs, hrows]
+    · simp only [RowsOf, List.length_singleton, Nat.mod_one, List.getElem?_cons_zero]
+      refine ⟨⟨_, rfl, var, hvs⟩, ?_⟩
+      -- the call index is irrelevant for a one-call schedule
+      have shift : ∀ (l : List (Shape α × List Bytes)) (i j : Nat) (rows : List (List (RVal α))),
+          RowsOf zero keys G [.s sfs reuse] l i rows → RowsOf zero keys G [.s sfs reuse] l j rows := by
+        intro l
+        induction l with
+        | nil => intro i j rows h; cases rows <;> simp_all [RowsOf]
+        | cons a l ihl =>
+          intro i j rows h
+          cases rows with
+          | nil => simp [RowsOf] at h
+          | cons row rows =>
+            simp only [RowsOf, List.length_singleton, Nat.mod_one] at h ⊢
+            exact ⟨h.1, ihl _ _ _ h.2⟩
+      exact shift _ _ _ _ hof
+
+/-- **C16_order_struct** (same clause, `DecodeRow`): starting from ANY content `var0` of the record
+variable (fresh or reused), `n` `DecodeRow` calls over a file of `n` records whose cells parse return `n`
+rows in file order, no panic, no error; row `i` is decoded from record `i`'s own shape and cells. -/
+theorem C16_order_struct (zero : α) (f : FileM α) (sfs : List SField) (reuse : Bool) (G : Shape α → Geom α)
+    (h : ∀ r ∈ f.rows, shp2Geom r.1 = .ok (G r.1) ∧ CallOK zero (fileKeys f.fields) G (.s sfs reuse) r) :
+    ∃ rows, readS zero f sfs reuse = ⟨rows, false, false⟩ ∧ rows.length = f.rows.length ∧
+      RowsOf zero (fileKeys f.fields) G [.s sfs reuse] f.rows 0 rows := by
+  obtain ⟨rows, h1, h2⟩ := readS_go_rows zero sfs reuse (fileKeys f.fields) G f.rows (zeroRow zero sfs) h
+  exact ⟨rows, by simpa [readS] using h1, RowsOf_length _ _ _ _ _ _ _ h2, h2⟩
+
+/-- the values `DecodeRow` leaves in the record are, field by field, what `decodeField` computes from the
+row's own cells -/
+theorem decodeFields_getElem (zero : α) (keys : List Bytes) (g : Geom α) (cells : List Bytes) :
+    ∀ (sfs : List SField) (var vs : List (RVal α)) (e : Bool),
+      decodeFields zero keys g cells sfs var = (some vs, e) →
+      vs.length = sfs.length ∧
+      ∀ p (hp : p < sfs.length), ∃ prev e', ∃ hv : p < vs.length,
+        decodeField keys g cells sfs[p] prev = .ok (vs[p], e') := by
+  intro sfs
+  induction sfs with
+  | nil => intro var vs e h; simp [decodeFields] at h; obtain ⟨rfl, _⟩ := h; exact ⟨rfl, fun p hp => absurd hp (by simp)⟩
+  | cons sf rest ih =>
+    intro var vs e h
+    rw [decodeFields] at h
+    generalize var.headD (zeroOf zero sf.kind) = prev0 at h
+    cases hd : decodeField keys g cells sf prev0 with
+    | error f => simp [hd] at h
+    | ok ve =>
+      obtain ⟨v, e1⟩ := ve
+      rw [hd] at h
+      cases hr : decodeFields zero keys g cells rest var.tail with
+      | mk o e2 =>
+        rw [hr] at h
+        cases o with
+        | none => simp at h
+        | some vs' =>
+          simp only [Prod.mk.injEq, Option.some.injEq] at h
+          obtain ⟨hvs, _⟩ := h
+          subst hvs
+          obtain ⟨hl, hp'⟩ := ih var.tail vs' e2 hr
+          refine ⟨by simp [hl], ?_⟩
+          intro p hp
+          cases p with
+          | zero => exact ⟨_, e1, by simp, by simpa using hd⟩
+          | succ p =>
+            obtain ⟨prev, e', hv, hdec⟩ := hp' p (by simpa using hp)
+            exact ⟨prev, e', by simp; omega, by simpa using hdec⟩
+
+/-- **C16_decodeRow_assigned** ("each matched field is assigned from its own row"): after a `DecodeRow`
+call that did not panic, a string field matched to column `j` holds exactly the text of THIS row's cell
+`j`, and an int/float field whose cell parses holds the parsed value — whatever the record variable held
+before the call. -/
+theorem C16_decodeRow_assigned (zero : α) (keys : List Bytes) (g : Geom α) (cells : List Bytes)
+    (sfs : List SField) (var vs : List (RVal α)) (e : Bool)
+    (h : decodeFields zero keys g cells sfs var = (some vs, e))
+    (p : Nat) (hp : p < sfs.length) (j : Nat) (cell : Bytes)
+    (hm : matchField keys sfs[p] = some j) (hc : cells[j]? = some cell) :
+    (sfs[p].kind = .str → vs[p]? = some (.str (strOf cell))) ∧
+    (∀ i, sfs[p].kind = .int → parseInt (numText cell) = some i → vs[p]? = some (.int i)) ∧
+    (∀ u, sfs[p].kind = .float → parseFloat (numText cell) = some u → vs[p]? = some (.float u)) := by
+  obtain ⟨hl, hall⟩ := decodeFields_getElem zero keys g cells sfs var vs e h
+  obtain ⟨prev, e', hv, hdec⟩ := hall p hp
+  have ha := C16_assigned keys g cells sfs[p] j cell prev hm hc
+  refine ⟨?_, ?_, ?_⟩
+  · intro hk
+    have := ha.1 hk
+    rw [hdec] at this
+    simp only [Except.ok.injEq, Prod.mk.injEq] at this
+    rw [List.getElem?_eq_getElem hv, this.1]
+  · intro i hk hpi
+    have := ha.2.1 i hk hpi
+    rw [hdec] at this
+    simp only [Except.ok.injEq, Prod.mk.injEq] at this
+    rw [List.getElem?_eq_getElem hv, this.1]
+  · intro u hk hpu
+    have := ha.2.2 u hk hpu
+    rw [hdec] at this
+    simp only [Except.ok.injEq, Prod.mk.injEq] at this
+    rw [List.getElem?_eq_getElem hv, this.1]
+
 end order
+
+/-! ## composition: "column i is matched by field i", and the struct path end to end -/
+
+theorem lowerB_idem (c : UInt8) : lowerB (lowerB c) = lowerB c := by
+  rcases c with ⟨⟨f⟩⟩
+  revert f
+  decide +kernel
+
+theorem lower_idem (b : Bytes) : lower (lower b) = lower b := by
+  simp [lower, List.map_map, Function.comp_def, lowerB_idem]
+
+/-- a name the DBF header carries unchanged: 1–11 bytes, no NUL, no white space at either end -/
+def Plain (b : Bytes) : Prop :=
+  b ≠ [] ∧ b.length ≤ 11 ∧ (∀ x ∈ b, x ≠ 0) ∧ (∀ x, b.head? = some x → isWs x = false) ∧
+    (∀ x, b.getLast? = some x → isWs x = false)
+
+theorem takeWhile_all' (p : UInt8 → Bool) : ∀ (b : Bytes), (∀ x ∈ b, p x = true) → b.takeWhile p = b
+  | [], _ => rfl
+  | a :: t, h => by
+    simp [List.takeWhile, h a (by simp), takeWhile_all' p t (fun x hx => h x (by simp [hx]))]
+
+/-- **C16_name_roundtrip**: `shpFieldName2String` undoes the copy into the `[11]byte` header field for
+every plain name (`copy(field.Name[:], name)` then trim NULs, cut at NUL, `TrimSpace`) -/
+theorem C16_name_roundtrip (b : Bytes) (h : Plain b) : fieldNameString (name11 b) = b := by
+  obtain ⟨hne, hlen, hnul, hhead, hlast⟩ := h
+  have hz : ∀ x ∈ List.replicate (11 - b.length) (0 : UInt8), isNul x = true := by
+    intro x hx; simp [List.mem_replicate] at hx; simp [isNul, hx.2]
+  have h11 : name11 b = b ++ List.replicate (11 - b.length) 0 := by
+    simp [name11, List.take_of_length_le hlen]
+  have h1 : trim isNul (name11 b) = b := by
+    rw [h11]; unfold trim
+    have hd : (b ++ List.replicate (11 - b.length) 0).dropWhile isNul = b ++ List.replicate (11 - b.length) 0 := by
+      apply dropWhile_id
+      intro x hx
+      obtain ⟨a, t, rfl⟩ := List.exists_cons_of_ne_nil hne
+      simp at hx
+      have := hnul a (by simp)
+      rw [← hx]; simp [isNul, this]
+    rw [hd, rtrim_append_cut _ _ _ hz]
+    apply rtrim_id
+    intro x hx
+    have := hnul x (mem_of_getLast? hx)
+    simp [isNul, this]
+  unfold fieldNameString
+  simp only [h1]
+  rw [takeWhile_all' _ b (fun x hx => by simp [hnul x hx])]
+  unfold trim
+  rw [dropWhile_id isWs b hhead]
+  exact rtrim_id isWs b hlast
+
+/-- the attribute fields of a struct type, in field order -/
+def attrsOf (sfs : List SField) : List SField :=
+  sfs.filter fun sf => match sf.kind with | .int => true | .float => true | .str => true | .geom _ => false
+
+/-- the name `NewEncoder` gives the column of a field: lower-cased tag, or the field name -/
+def effName (sf : SField) : Bytes := if lower sf.tag = [] then sf.name else lower sf.tag
+
+/-- the key `getFieldIndices` files that column under -/
+def keyOf (sf : SField) : Bytes := lower (effName sf)
+
+theorem newEncoder_go_fields : ∀ (sfs : List SField) (fs : List Field) (g : Option GK) (fs' : List Field) (g' : Option GK),
+    newEncoder.go sfs fs g = .ok (fs', g') → fs' = fs.reverse ++ (attrsOf sfs).map colField := by
+  intro sfs
+  induction sfs with
+  | nil => intro fs g fs' g' h; simp [newEncoder.go] at h; simp [attrsOf, h.1]
+  | cons sf rest ih =>
+    intro fs g fs' g' h
+    rw [newEncoder.go] at h
+    cases hk : sf.kind with
+    | int => simp only [hk] at h; have := ih _ _ _ _ h; simp [attrsOf, hk, this]
+    | float => simp only [hk] at h; have := ih _ _ _ _ h; simp [attrsOf, hk, this]
+    | str => simp only [hk] at h; have := ih _ _ _ _ h; simp [attrsOf, hk, this]
+    | geom k =>
+      rw [hk] at h
+      cases k
+      case I => simp at h
+      all_goals (simp only at h; have := ih _ _ _ _ h; simp [attrsOf, hk, this])
+
+/-- **C16_columns**: the columns `NewEncoder` creates are the attribute fields of the archetype in field
+order, one column each (geometry fields contribute none) -/
+theorem C16_columns (sfs : List SField) (e : EncS) (h : newEncoder sfs = .ok e) :
+    e.fields = (attrsOf sfs).map colField := by
+  unfold newEncoder at h
+  cases hg : newEncoder.go sfs [] none with
+  | error f => simp [hg] at h
+  | ok p =>
+    obtain ⟨fs, g⟩ := p
+    have hf := newEncoder_go_fields sfs [] none fs g hg
+    simp only [List.reverse_nil, List.nil_append] at hf
+    rw [hg] at h
+    cases g with
+    | none => simp at h
+    | some k =>
+      simp only at h
+      cases ht : shapeTypeOfGK k with
+      | none => simp [ht] at h
+      | some t => simp [ht] at h; rw [← h]; exact hf
+
+theorem fileKeys_columns (attrs : List SField) (hp : ∀ sf ∈ attrs, Plain (effName sf)) :
+    fileKeys (attrs.map colField) = attrs.map keyOf := by
+  unfold fileKeys
+  rw [List.map_map]
+  apply List.map_congr_left
+  intro sf hsf
+  have hname : (colField sf).name = name11 (effName sf) := by
+    unfold colField; cases sf.kind <;> rfl
+  simp only [Function.comp, hname, C16_name_roundtrip _ (hp sf hsf), keyOf]
+
+theorem keyOf_ne_nil (sf : SField) (h : Plain (effName sf)) : keyOf sf ≠ [] := by
+  unfold keyOf lower
+  intro hnil
+  exact h.1 (List.map_eq_nil_iff.mp hnil)
+
+/-- **C16_match_self** ("column i is matched by field i"): for a struct type whose attribute fields have
+plain column names with pairwise distinct lower-cased keys, `DecodeRow` matches the `i`-th attribute field —
+or any field `rf` with the same tag and name up to case — to the `i`-th column. -/
+theorem C16_match_self (attrs : List SField) (hp : ∀ sf ∈ attrs, Plain (effName sf))
+    (hd : ∀ a b (ha : a < attrs.length) (hb : b < attrs.length), keyOf attrs[a] = keyOf attrs[b] → a = b)
+    (i : Nat) (hi : i < attrs.length) (rf : SField)
+    (htag : lower rf.tag = lower attrs[i].tag) (hname : lower rf.name = lower attrs[i].name) :
+    matchField (fileKeys (attrs.map colField)) rf = some i := by
+  rw [fileKeys_columns attrs hp]
+  have hlast : IsLast (attrs.map keyOf) (keyOf attrs[i]) i := by
+    refine ⟨by simp [List.getElem?_eq_getElem hi], ?_⟩
+    intro c' hc' heq
+    rcases Nat.lt_or_ge c' attrs.length with hlt | hge
+    · simp [List.getElem?_eq_getElem hlt] at heq
+      have := hd c' i hlt hi heq
+      omega
+    · simp [List.getElem?_eq_none (by simpa using hge)] at heq
+  unfold matchField
+  rw [htag, hname]
+  by_cases ht : lower attrs[i].tag = []
+  · -- no tag: the empty key is no column, the field name decides
+    have hk : keyOf attrs[i] = lower attrs[i].name := by simp [keyOf, effName, ht]
+    have hnone : lastIdx (attrs.map keyOf) (lower attrs[i].tag) = none := by
+      rw [ht, lastIdx_none]
+      intro j hj
+      rcases Nat.lt_or_ge j attrs.length with hlt | hge
+      · simp [List.getElem?_eq_getElem hlt] at hj
+        exact keyOf_ne_nil _ (hp _ (List.getElem_mem hlt)) hj
+      · simp [List.getElem?_eq_none (by simpa using hge)] at hj
+    rw [hnone]
+    simp only
+    rw [← hk]
+    exact (lastIdx_spec _ _ _).mpr hlast
+  · have hk : keyOf attrs[i] = lower attrs[i].tag := by simp [keyOf, effName, ht, lower_idem]
+    rw [← hk, (lastIdx_spec _ _ _).mpr hlast]
+
+theorem writeStrict_cells : ∀ (fs : List Field) (vs : List Val), fs.length = vs.length →
+    (∀ i (hi : i < fs.length) (hv : i < vs.length), writeAttr fs[i] vs[i] = some (render fs[i] vs[i])) →
+    (writeStrict fs vs).2 = true ∧
+    ∀ i (hi : i < fs.length) (hv : i < vs.length), (writeStrict fs vs).1[i]? = some (cellOf fs[i].size (render fs[i] vs[i])) := by
+  intro fs
+  induction fs with
+  | nil => intro vs hl _; exact ⟨by cases vs <;> simp [writeStrict], fun i hi => absurd hi (by simp)⟩
+  | cons f fs ih =>
+    intro vs hl h
+    cases vs with
+    | nil => simp at hl
+    | cons v vs =>
+      have h0 := h 0 (by simp) (by simp)
+      simp only [List.getElem_cons_zero] at h0
+      have := ih vs (by simpa using hl) (fun i hi hv => by
+        have := h (i + 1) (by simp; omega) (by simp; omega)
+        simpa using this)
+      simp only [writeStrict, h0]
+      refine ⟨this.1, ?_⟩
+      intro i hi hv
+      cases i with
+      | zero => simp
+      | succ i => simpa using this.2 i (by simpa using hi) (by simpa using hv)
+
+theorem writeAttr_fits (f : Field) (v : Val) (h : writeAttr f v = some (render f v)) : (render f v).length ≤ f.size := by
+  unfold writeAttr at h
+  simp only at h
+  split at h
+  · cases h
+  · omega
+
+/-- **C16_struct_roundtrip** (the struct path end to end: "integer attributes are equal, NUL-free strings
+up to 50 bytes are equal and floats agree to 10 decimal places, matched to struct fields by tag or name
+case-insensitively"): take any archetype `sfs` accepted by `NewEncoder` whose attribute fields have plain
+column names (≤ 11 bytes, NUL-free) with pairwise distinct lower-cased keys, and a record whose values all
+fit their columns. Then `Encode` reports no attribute error, and `DecodeRow` — into a record variable
+holding anything (`prev`), through any field `rf` that has the `i`-th field's tag and name up to case —
+returns: the string itself when it satisfies `StrOK 50`; the integer itself for every Go int; and, under
+the float rendering contract, a float `close` to the one written. -/
+theorem C16_struct_roundtrip {α : Type} (sfs : List SField) (e : EncS) (henc : newEncoder sfs = .ok e)
+    (hp : ∀ sf ∈ attrsOf sfs, Plain (effName sf))
+    (hd : ∀ a b (ha : a < (attrsOf sfs).length) (hb : b < (attrsOf sfs).length),
+      keyOf (attrsOf sfs)[a] = keyOf (attrsOf sfs)[b] → a = b)
+    (vals : List Val) (hl : e.fields.length = vals.length)
+    (hfit : ∀ i (hi : i < e.fields.length) (hv : i < vals.length),
+      writeAttr e.fields[i] vals[i] = some (render e.fields[i] vals[i]))
+    (g : Geom α) (i : Nat) (hi : i < (attrsOf sfs).length) (hv : i < vals.length) (rf : SField) (prev : RVal α)
+    (hkind : rf.kind = (attrsOf sfs)[i].kind)
+    (htag : lower rf.tag = lower (attrsOf sfs)[i].tag) (hname : lower rf.name = lower (attrsOf sfs)[i].name) :
+    let cells := (writeStrict e.fields vals).1
+    let keys := fileKeys e.fields
+    (writeStrict e.fields vals).2 = true ∧
+    (∀ s, rf.kind = .str → vals[i] = .str s → StrOK stringLength s →
+      decodeField keys g cells rf prev = .ok (.str s, false)) ∧
+    (∀ z : Int, rf.kind = .int → vals[i] = .int z → -(2 ^ 63 : Int) ≤ z → z < 2 ^ 63 →
+      decodeField keys g cells rf prev = .ok (.int z, false)) ∧
+    (∀ (close : UInt64 → UInt64 → Prop) u, FloatFmt (fmtFloat floatPrecision) parseFloat close →
+      rf.kind = .float → vals[i] = .float u →
+      ∃ y, decodeField keys g cells rf prev = .ok (.float y, false) ∧ close u y) := by
+  intro cells keys
+  have hcols := C16_columns sfs e henc
+  have hi' : i < e.fields.length := by rw [hcols]; simpa using hi
+  have hfield : e.fields[i] = colField (attrsOf sfs)[i] := by simp [hcols]
+  obtain ⟨hok, hcells⟩ := writeStrict_cells e.fields vals hl hfit
+  have hcell := hcells i hi' hv
+  have hmatch : matchField keys rf = some i := by
+    show matchField (fileKeys e.fields) rf = some i
+    rw [hcols]
+    exact C16_match_self (attrsOf sfs) hp hd i hi rf htag hname
+  have hlen := writeAttr_fits _ _ (hfit i hi' hv)
+  refine ⟨hok, ?_, ?_, ?_⟩
+  · intro s hk hval hsok
+    have hsz : e.fields[i].size = stringLength := by
+      rw [hfield]; unfold colField; rw [← hkind, hk]
+    rw [(C16_assigned keys g cells rf i _ prev hmatch hcell).1 hk]
+    rw [hval] at hlen hcell ⊢
+    simp only [render] at hlen ⊢
+    have := (C16_string e.fields[i] s hlen (hsz ▸ hsok)).2
+    rw [this]
+  · intro z hk hval h1 h2
+    rw [hval] at hlen hcell
+    simp only [render] at hlen hcell
+    have hint := C16_int e.fields[i] z h1 h2 hlen
+    have := (C16_assigned keys g cells rf i _ prev hmatch hcell).2.1 z hk hint.2.1
+    exact this
+  · intro close u hfmt hk hval
+    have hprec : e.fields[i].prec = floatPrecision := by
+      rw [hfield]; unfold colField; rw [← hkind, hk]
+    rw [hval] at hlen hcell
+    simp only [render, hprec] at hlen hcell
+    obtain ⟨⟨y, hy, hc⟩, _⟩ := C16_float hfmt u e.fields[i].size hlen
+    exact ⟨y, (C16_assigned keys g cells rf i _ prev hmatch hcell).2.2 y hk hy, hc⟩
 
 end GeomV.C16
